@@ -14,9 +14,12 @@ package main
 //
 // The expected parameters after a message are computed here (specMintUpdate / specDistrUpdate: plain string
 // and big.Int code, independent of the keepers and of the Lean model); the keeper's stored params are compared
-// with them (monitor C17.params) and the monitors continue with the expected ones.
+// with them (monitor C17.params) and the monitors continue with the expected ones. The community tax of an
+// x/feedistribution update must lie in [0,1] (repair of F-17c, fb3f03d): updates outside are part of the
+// generated stream and must be refused (monitor C17.tax, directed regression distrScenarioF17c).
 
 import (
+	"errors"
 	"fmt"
 	"math/big"
 	"regexp"
@@ -185,44 +188,146 @@ func (r *distrRunner) mintParams(viaTx bool, denom string, reward *big.Int, id s
 	return err == nil
 }
 
-// distrParams delivers an x/feedistribution MsgUpdateParams through the message server.
-func (r *distrRunner) distrParams(id string, tax *big.Int) bool {
-	c, env := r.c, r.env
-	wantI, wantT := r.h.distrID, r.h.tax
-	accept := r.knownEpoch(id)
-	if accept {
-		wantI, wantT = id, tax
+// distrTaxInUnit: the community tax is a fraction, raw value in [0, 10^18] (a nil tax counts: it is stored as 0).
+func distrTaxInUnit(tax *big.Int) bool {
+	return tax == nil || (tax.Sign() >= 0 && tax.Cmp(bigPrec) <= 0)
+}
+
+// specDistrUpdate: feedistribution UpdateParams as repaired (F-17c): a community tax outside [0,1] is refused
+// first ("rej:tax"), then an identifier x/epochs does not have ("rej:epoch"); otherwise the message's params are
+// stored as they are (a nil tax as zero). ValidateBasic (transactions) checks the same tax bound.
+func (r *distrRunner) specDistrUpdate(id string, tax *big.Int) (string, string, *big.Int) {
+	switch {
+	case !distrTaxInUnit(tax):
+		return "rej:tax", r.h.distrID, r.h.tax
+	case !r.knownEpoch(id):
+		return "rej:epoch", r.h.distrID, r.h.tax
+	case tax == nil:
+		return "ok", id, new(big.Int)
 	}
+	return "ok", id, tax
+}
+
+func distrTaxStr(tax *big.Int) string {
+	if tax == nil {
+		return "nil"
+	}
+	return tax.String()
+}
+
+func distrMsg(id string, tax *big.Int) *distrtypes.MsgUpdateParams {
+	p := distrtypes.Params{EpochIdentifier: id}
+	if tax != nil {
+		p.CommunityTax = decFromRaw(tax)
+	} // else: a nil LegacyDec (what decoding a message without the field leaves)
+	return &distrtypes.MsgUpdateParams{Authority: distrGovAuthority(), Params: p}
+}
+
+// distrErrKind maps the error of the feedistribution message path to the model's enum.
+func distrErrKind(err error) string {
+	switch {
+	case err == nil:
+		return "ok"
+	case errors.Is(err, distrtypes.ErrEpochNotFound):
+		return "rej:epoch"
+	case strings.Contains(err.Error(), "community tax"):
+		return "rej:tax"
+	}
+	return "rej"
+}
+
+// distrParams delivers an x/feedistribution MsgUpdateParams (tax nil = nil LegacyDec): viaTx = as baseapp delivers
+// the message of a transaction (msg.ValidateBasic, then the message server on a cache of the deliver state),
+// otherwise the message server alone (what a caller inside the application reaches).
+//
+// Regression guard of F-17c: an update with a community tax outside [0,1] that is ACCEPTED is a violation with
+// the history so far (sig F17c:tax-outside-unit-interval-accepted) — the next distribution epoch with fees
+// would halt BeginBlock.
+func (r *distrRunner) distrParams(viaTx bool, id string, tax *big.Int) bool {
+	c, env := r.c, r.env
+	wantSt, wantI, wantT := r.specDistrUpdate(id, tax)
 	srv := distrkeeper.NewMsgServerImpl(c.App.DistrKeeper)
-	msg := &distrtypes.MsgUpdateParams{Authority: distrGovAuthority(), Params: distrtypes.Params{EpochIdentifier: id, CommunityTax: decFromRaw(tax)}}
+	msg := distrMsg(id, tax)
 	err := c.CachedDo(func(ctx sdk.Context) error {
-		if e := msg.ValidateBasic(); e != nil { // as for the message of a transaction (it checks the authority address only)
-			return e
+		if viaTx {
+			if e := msg.ValidateBasic(); e != nil {
+				return e
+			}
 		}
 		_, e := srv.UpdateParams(sdk.WrapSDKContext(ctx), msg)
 		return e
 	})
 	got := c.App.DistrKeeper.GetParams(c.Ctx)
-	st := "ok"
-	if err != nil {
-		st = "rej"
+	path := "srv"
+	if viaTx {
+		path = "tx"
 	}
-	r.op(fmt.Sprintf("distr.distrparams %s %s", pEsc(id), tax), fmt.Sprintf("%s %s %s", st, pEsc(got.EpochIdentifier), got.CommunityTax.BigInt()))
+	st := distrErrKind(err)
+	r.op(fmt.Sprintf("distr.distrparams %s %s %s", path, pEsc(id), distrTaxStr(tax)), fmt.Sprintf("%s %s %s", st, pEsc(got.EpochIdentifier), got.CommunityTax.BigInt()))
 	env.Eval("C17.params")
-	if (err == nil) != accept || got.EpochIdentifier != wantI || got.CommunityTax.BigInt().Cmp(wantT) != 0 {
-		env.Violate("C17.params", "distr-params-not-as-configured", fmt.Sprintf("feedistribution MsgUpdateParams{%q %s}: err=%v, params in force {%q %s}, configured {%q %s}",
-			id, tax, err, got.EpochIdentifier, got.CommunityTax.BigInt(), wantI, wantT), r.hist)
+	env.Eval("C17.tax")
+	gotTax := got.CommunityTax.BigInt()
+	switch {
+	case err == nil && !distrTaxInUnit(tax):
+		r.taxAccepted = append(r.taxAccepted, fmt.Sprintf("MsgUpdateParams{%q community tax %s} (%s)", id, distrTaxStr(tax), path))
+		if !r.deferTaxAccepted {
+			r.violateTaxAccepted()
+		}
+		wantI, wantT = got.EpochIdentifier, gotTax // go on with what is in force: the block that follows shows the halt
+	case st != wantSt || got.EpochIdentifier != wantI || gotTax.Cmp(wantT) != 0:
+		env.Violate("C17.params", "distr-params-not-as-configured", fmt.Sprintf("feedistribution MsgUpdateParams{%q %s} (%s): %s err=%v, params in force {%q %s}, configured %s {%q %s}",
+			id, distrTaxStr(tax), path, st, err, got.EpochIdentifier, gotTax, wantSt, wantI, wantT), r.hist)
+	}
+	// the tax in force is a fraction after every message, accepted or not
+	if !distrTaxInUnit(gotTax) && distrTaxInUnit(r.h.tax) && distrTaxInUnit(tax) {
+		env.Violate("C17.tax", "tax-in-force-outside-unit-interval", fmt.Sprintf("community tax in force %s after MsgUpdateParams{%q %s}", gotTax, id, distrTaxStr(tax)), r.hist)
 	}
 	switch {
-	case !accept:
+	case wantSt == "rej:tax":
+		env.Outcome("distrparams:refused-tax-outside-unit-interval")
+	case wantSt == "rej:epoch":
 		env.Outcome("distrparams:refused-unknown-identifier")
 	case wantI != r.h.distrID:
 		env.Outcome("distrparams:identifier-changed")
 	default:
 		env.Outcome("distrparams:identifier-kept")
 	}
+	if tax == nil {
+		env.Outcome("distrparams:nil-tax")
+	}
 	r.h.distrID, r.h.tax = wantI, wantT
 	r.paramUpdates++
+	return err == nil
+}
+
+// violateTaxAccepted reports the accepted updates with a community tax outside [0,1] (history so far).
+func (r *distrRunner) violateTaxAccepted() {
+	if len(r.taxAccepted) == 0 {
+		return
+	}
+	got := r.c.App.DistrKeeper.GetParams(r.c.Ctx)
+	r.env.Violate("C17.tax", "F17c:tax-outside-unit-interval-accepted", fmt.Sprintf("feedistribution %s ACCEPTED (raw, 10^18 = 1): params in force {%q %s}; AllocateTokens multiplies the collected fees by 1 - tax, a distribution epoch end with fees panics in BeginBlock",
+		strings.Join(r.taxAccepted, ", "), got.EpochIdentifier, got.CommunityTax.BigInt()), r.hist)
+	r.taxAccepted = nil
+}
+
+// distrValidateBasic: MsgUpdateParams.ValidateBasic alone (what baseapp runs on every message of a transaction
+// before any handler): op distr.distrvb, replayed by the model (DistrMsg.validateBasic).
+func (r *distrRunner) distrValidateBasic(id string, tax *big.Int) bool {
+	err := distrMsg(id, tax).ValidateBasic()
+	st := "ok"
+	if err != nil {
+		st = "rej"
+	}
+	r.op(fmt.Sprintf("distr.distrvb %s %s", pEsc(id), distrTaxStr(tax)), st)
+	r.env.Eval("C17.tax")
+	if (err == nil) != distrTaxInUnit(tax) {
+		sig := "F17c:validate-basic-accepts-tax-outside-unit-interval"
+		if err != nil {
+			sig = "validate-basic-refuses-tax-in-unit-interval"
+		}
+		r.env.Violate("C17.tax", sig, fmt.Sprintf("feedistribution MsgUpdateParams{%q community tax %s}.ValidateBasic() = %v", id, distrTaxStr(tax), err), r.hist)
+	}
 	return err == nil
 }
 
@@ -255,14 +360,37 @@ func distrPickReward(rng *RNG) *big.Int {
 	return rng.BigBelow(pow10(24))
 }
 
+// distrPickTax: community tax of a generated MsgUpdateParams, raw (10^18 = 1). 3 in 4 draws are valid (0, 1, 2 %,
+// random in [0,1], now and then a nil tax); 1 in 4 is from the malformed stream the repaired handler must refuse:
+// the boundary values -1, 10^18+1, 2·10^18 and random negative / large ones.
 func distrPickTax(rng *RNG) *big.Int {
-	switch rng.Intn(5) {
+	if rng.Chance(1, 4) {
+		switch rng.Intn(6) {
+		case 0:
+			return big.NewInt(-1)
+		case 1:
+			return new(big.Int).Add(bigPrec, big.NewInt(1))
+		case 2:
+			return new(big.Int).Mul(big.NewInt(2), bigPrec)
+		case 3:
+			return new(big.Int).Neg(new(big.Int).Add(rng.BigBelow(bigPrec), big.NewInt(1))) // [-1, 0)
+		case 4:
+			return new(big.Int).Neg(new(big.Int).Add(rng.BigBelow(pow10(24)), big.NewInt(1)))
+		}
+		return new(big.Int).Add(bigPrec, new(big.Int).Add(rng.BigBelow(pow10(20)), big.NewInt(1))) // above 1
+	}
+	switch rng.Intn(6) {
 	case 0:
 		return big.NewInt(0)
 	case 1:
 		return new(big.Int).Set(bigPrec)
 	case 2:
 		return new(big.Int).Mul(big.NewInt(2), pow10(16))
+	case 3:
+		if rng.Chance(1, 3) {
+			return nil
+		}
+		return new(big.Int).Sub(bigPrec, big.NewInt(1))
 	}
 	return rng.BigBelow(new(big.Int).Add(bigPrec, big.NewInt(1)))
 }
@@ -271,7 +399,8 @@ func distrPickTax(rng *RNG) *big.Int {
 // identifiers (lower / equal / higher current numbers all occur), an identifier x/epochs does not have, a blank
 // one; reward from the boundary set, nil, negative; denom native / other / invalid. Distribution: identifier
 // among those that do not follow the dogfood identifier in store order (see domDistribution), an unknown one
-// (refused), community tax from the boundary set.
+// (refused), community tax from the boundary set incl. values outside [0,1] (refused: distrPickTax); 2 in 3 as the
+// message of a transaction.
 func (r *distrRunner) randomParams(rng *RNG) {
 	if !rng.Chance(1, 7) {
 		return
@@ -324,7 +453,7 @@ func (r *distrRunner) randomParams(rng *RNG) {
 	if rng.Chance(1, 2) {
 		tax = distrPickTax(rng)
 	}
-	r.distrParams(id, tax)
+	r.distrParams(rng.Chance(2, 3), id, tax)
 }
 
 // blocks runs n blocks, each d after the previous one.
@@ -342,27 +471,113 @@ func distrScenarioParams(env *Env) {
 	distrScenarioMintSwitch(env)
 	distrScenarioMintSwitchEqual(env)
 	distrScenarioDistrSwitch(env)
-	if env.Str("probe", "") == "tax-above-one" { // opt-in probe, not part of any registry run
-		distrProbeTaxAboveOne(env)
+	distrScenarioF17c(env)
+	if env.Str("probe", "") == "genesis-tax-above-one" { // opt-in probe, not part of any registry run
+		distrProbeGenesisTaxAboveOne(env)
 	}
 }
 
-// distrProbeTaxAboveOne (opt-in): x/feedistribution UpdateParams stores any community tax (Params.Validate
-// is `return nil` and is not called); with a tax above 100 % the fee multiplier is negative and the next
-// distribution epoch with fees panics in DecCoins.Sub inside BeginBlock. Outside the generated range (the
-// registry keeps the community tax in [0,1]); kept as a probe for the lead.
-func distrProbeTaxAboveOne(env *Env) {
+// distrScenarioF17c (regression of F-17c, runs in every C17 run): before commit fb3f03d x/feedistribution
+// UpdateParams stored any community tax (Params.Validate was `return nil` and was not called); with a tax above
+// 100 % the fee multiplier is negative (below 0 %: above the collected fees) and the next distribution epoch end
+// with fees panics in DecCoins.Sub inside BeginBlock. The repaired code refuses 10^18+1, -1, -1/2 and 2 in
+// MsgUpdateParams.ValidateBasic AND in the handler (direct callers), stores the boundary values 0, 1 and a nil tax
+// (as 0), and no block halts. A re-introduction is reported with this history: an accepted update as
+// F17c:tax-outside-unit-interval-accepted (distrParams), ValidateBasic alone as F17c:validate-basic-accepts-…,
+// the halt as F17c:community-tax-above-one-halts-beginblock.
+func distrScenarioF17c(env *Env) {
 	cfg := DefaultCfg(env.Report.Seed*1000 + 908)
 	cfg.EpochID = epochstypes.WeekEpochID
 	h := &distrHistCfg{cfg: cfg, distrID: epochstypes.MinuteEpochID, mintID: epochstypes.DayEpochID, reward: big.NewInt(0),
 		tax: big.NewInt(0), rates: []*big.Int{big.NewInt(0), big.NewInt(0)}, shrink: map[string]time.Duration{}}
 	c := distrBoot(h)
-	r := &distrRunner{env: env, c: c, h: h, haltSigAs: "F17c:community-tax-above-one-halts-beginblock"}
-	r.start("probe-tax-above-one")
-	acc := r.distrParams(epochstypes.MinuteEpochID, new(big.Int).Add(bigPrec, big.NewInt(1)))
+	r := &distrRunner{env: env, c: c, h: h, haltSigAs: "F17c:community-tax-above-one-halts-beginblock", deferTaxAccepted: true}
+	r.start("scenario-F17c-community-tax-outside-unit-interval")
+	minute := epochstypes.MinuteEpochID
+	above := new(big.Int).Add(bigPrec, big.NewInt(1))
+	minusHalf := new(big.Int).Neg(new(big.Int).Quo(bigPrec, big.NewInt(2)))
+	two := new(big.Int).Mul(big.NewInt(2), bigPrec)
+	vbRefused, refused, ok := 0, 0, true
+	count := func(accepted bool, n *int) {
+		if !accepted {
+			*n++
+		}
+	}
+	// tax 1.000000000000000001: in a transaction, and the handler called directly; then fees and the end of minute
+	// epoch 1. On the unrepaired code the update is accepted and the block halts: ONE violation whose replay holds
+	// update, fees and block (the halt, reported by r.block; if the block survives, the accepted update).
+	count(r.distrParams(true, minute, above), &refused)
+	count(r.distrParams(false, minute, above), &refused)
+	r.fee(big.NewInt(1000))
+	ok = r.block(61 * time.Second)
+	r.violateTaxAccepted()
+	// ValidateBasic alone (stateless: also after a halt)
+	for _, t := range []*big.Int{above, big.NewInt(-1), minusHalf, two} {
+		count(r.distrValidateBasic(minute, t), &vbRefused)
+	}
+	vbOK := r.distrValidateBasic(minute, new(big.Int).Set(bigPrec)) && r.distrValidateBasic(minute, big.NewInt(0)) && r.distrValidateBasic(minute, nil)
+	if ok {
+		// negative taxes (-10^-18, -1/2), 2, and the order of the checks (tax before the unknown identifier)
+		count(r.distrParams(true, minute, big.NewInt(-1)), &refused)
+		count(r.distrParams(false, minute, big.NewInt(-1)), &refused)
+		count(r.distrParams(false, minute, minusHalf), &refused)
+		count(r.distrParams(false, "fortnight", two), &refused)
+		r.fee(big.NewInt(1000))
+		ok = r.block(61 * time.Second)
+		r.violateTaxAccepted()
+	}
+	accepted := 0
+	if ok {
+		// the boundary values are accepted: tax 1 (everything to the community pool), a nil tax (stored as 0), tax 0
+		for _, t := range []*big.Int{new(big.Int).Set(bigPrec), nil, big.NewInt(0)} {
+			if r.distrParams(t != nil, minute, t) {
+				accepted++
+			}
+			r.fee(new(big.Int).Add(bigPrec, big.NewInt(1)))
+			ok = ok && r.block(61*time.Second)
+		}
+	}
+	env.Report.Histories++
+	env.Outcome(fmt.Sprintf("scenario-F17c:validate-basic-refused=%d/4,validate-basic-accepts-boundaries=%v,updates-refused=%d/6,boundary-updates-accepted=%d/3,no-halt=%v,distr-ends=%d", vbRefused, vbOK, refused, accepted, ok, r.distrEpochs))
+}
+
+// distrProbeGenesisTaxAboveOne (opt-in: `exoharness distribution probe=genesis-tax-above-one`): the genesis path
+// of the same bound. GenesisState.Validate calls Params.Validate (validate-genesis refuses a tax above 1), but
+// Keeper.InitGenesis stores the genesis params as they are and InitChain does not run ValidateGenesis: a genesis
+// file with community_tax > 1 boots, and the first distribution epoch end with fees halts BeginBlock. Reported to
+// the lead as a residual of F-17c; not part of any registry run (pinned as an assumption: C17_tie_shapeDistrInitGenesis).
+func distrProbeGenesisTaxAboveOne(env *Env) {
+	above := new(big.Int).Add(bigPrec, big.NewInt(1))
+	gerr := distrtypes.NewGenesisState(distrtypes.Params{EpochIdentifier: epochstypes.MinuteEpochID, CommunityTax: decFromRaw(above)}).Validate()
+	env.Outcome(fmt.Sprintf("probe-genesis-tax-above-one:GenesisState.Validate-refuses=%v", gerr != nil))
+	cfg := DefaultCfg(env.Report.Seed*1000 + 909)
+	cfg.EpochID = epochstypes.WeekEpochID
+	h := &distrHistCfg{cfg: cfg, distrID: epochstypes.MinuteEpochID, mintID: epochstypes.DayEpochID, reward: big.NewInt(0),
+		tax: above, rates: []*big.Int{big.NewInt(0), big.NewInt(0)}, shrink: map[string]time.Duration{}}
+	var c *Chain
+	halt := ""
+	func() {
+		defer func() {
+			if x := recover(); x != nil {
+				ch, isHalt := x.(chainHalt)
+				if !isHalt {
+					panic(x)
+				}
+				halt = ch.where + ": " + ch.msg
+			}
+		}()
+		c = distrBoot(h)
+	}()
+	if c == nil {
+		env.Outcome("probe-genesis-tax-above-one:InitChain-refuses=true (" + halt + ")")
+		return
+	}
+	r := &distrRunner{env: env, c: c, h: h, haltSigAs: "F17c-genesis:community-tax-above-one-halts-beginblock"}
+	r.start("probe-genesis-tax-above-one")
+	stored := c.App.DistrKeeper.GetParams(c.Ctx).CommunityTax.BigInt()
 	r.fee(big.NewInt(1000))
 	ok := r.block(61 * time.Second)
-	env.Outcome(fmt.Sprintf("probe-tax-above-one:accepted=%v,next-distribution-epoch-ok=%v", acc, ok))
+	env.Outcome(fmt.Sprintf("probe-genesis-tax-above-one:InitChain-refuses=false,stored-tax=%s,next-distribution-epoch-ok=%v", stored, ok))
 }
 
 // distrScenarioMintSwitch: the mint identifier is switched hour -> day after three hourly mints (day's
@@ -449,17 +664,17 @@ func distrScenarioDistrSwitch(env *Env) {
 	}
 	ok := step(2, 61*time.Second)
 	before := r.distrEpochs
-	r.distrParams(epochstypes.HourEpochID, h.tax) // hour: number 1, the minute epochs are at 3
-	ok = ok && step(3, 61*time.Second)            // minute ends: nothing is swept (the mint keeps filling the collector)
+	r.distrParams(true, epochstypes.HourEpochID, h.tax) // hour: number 1, the minute epochs are at 3
+	ok = ok && step(3, 61*time.Second)                  // minute ends: nothing is swept (the mint keeps filling the collector)
 	quiet := r.distrEpochs == before
-	ok = ok && step(1, time.Hour)             // hour epoch 1 ends: everything collected so far moves at once
-	r.distrParams("fortnight", big.NewInt(0)) // refused
+	ok = ok && step(1, time.Hour)                   // hour epoch 1 ends: everything collected so far moves at once
+	r.distrParams(true, "fortnight", big.NewInt(0)) // refused
 	ok = ok && step(1, time.Hour)
-	r.distrParams(epochstypes.HourEpochID, new(big.Int).Quo(bigPrec, big.NewInt(2))) // tax 50 %
+	r.distrParams(false, epochstypes.HourEpochID, new(big.Int).Quo(bigPrec, big.NewInt(2))) // tax 50 %
 	ok = ok && step(1, time.Hour+time.Second)
-	r.distrParams(epochstypes.MinuteEpochID, new(big.Int).Set(bigPrec)) // back to minute, tax 100 %
+	r.distrParams(true, epochstypes.MinuteEpochID, new(big.Int).Set(bigPrec)) // back to minute, tax 100 %
 	ok = ok && step(2, time.Second)
-	r.distrParams(epochstypes.DayEpochID, big.NewInt(0)) // day: number 1
+	r.distrParams(false, epochstypes.DayEpochID, big.NewInt(0)) // day: number 1
 	ok = ok && step(1, 24*time.Hour)
 	env.Report.Histories++
 	env.Outcome(fmt.Sprintf("scenario-distribution-identifier-switch:ok=%v,quiet-after-switch=%v,distr-ends-after-switch=%d,updates=%d", ok, quiet, r.distrEpochs-before, r.paramUpdates))
